@@ -20,6 +20,7 @@ from pipeline import (ImplFns, check_simulation, compare_value_arrays, explicit_
                       model_solve)
 from props.simcommon import base_out
 
+CANARY = True
 RULE = ("cases = generated dyadic specifications forced to reuse one parameter name in every function family (auxiliary, utility, "
         "constraint, transition) with pairwise different values, stochastic states with shuffled dependency lists incl. _period; "
         "distinct = structural signature; evaluations = template entries compared + value entries compared + agent-periods checked")
